@@ -100,7 +100,7 @@ def main(argv):
     ctx = Ctx(prop, tier, seed, shard, nshards)
     plan = mod.PLAN[tier]
     ncases = int(plan["cases"])
-    budget = float(plan.get("budget_s", 1e9))
+    budget = float(os.environ.get("VERIF_BUDGET_S") or plan.get("budget_s", 1e9))
     t0 = time.time()
     hashes = set()
     shapes = {}
